@@ -190,6 +190,79 @@ func init() {
 	}
 }
 
+func init() {
+	// enumunion <members> <members> [<members> ...]      (member lists as in enummod)
+	// leaf l { type union { type enumeration {..} type enumeration {..} ... } }: the tables of the union's member
+	// types in order, separated by " | " (a member type equal to an earlier one is listed once).
+	handlers["enumunion"] = func(t []string) string {
+		src := "leaf l { type union {"
+		for _, m := range t {
+			src += " type " + typeBody(false, m)
+		}
+		src += " } }"
+		ms := yang.NewModules()
+		if err := ms.Parse("module m { yang-version \"1.1\"; namespace \"urn:m\"; prefix m; feature ft; "+src+" }", "m.yang"); err != nil {
+			return "parse-error " + strings.ReplaceAll(err.Error(), "\n", " ")
+		}
+		if errs := ms.Process(); len(errs) > 0 {
+			return "err"
+		}
+		l := yang.ToEntry(ms.Modules["m"]).Dir["l"]
+		if l == nil || l.Type == nil {
+			return "no-leaf"
+		}
+		var out []string
+		for _, yt := range l.Type.Type {
+			if yt.Enum == nil {
+				out = append(out, "no-table")
+				continue
+			}
+			out = append(out, enumViews(yt.Enum))
+		}
+		return "ok " + strings.Join(out, " | ")
+	}
+
+	// enumdev <bits 0|1> <old form i|t> <old members> <new members>
+	// module m { leaf l { type <old> } } (t: through a typedef) and module d { import m; deviation /m:l { deviate replace
+	// { type <new> } } }: the table of the deviated leaf.
+	handlers["enumdev"] = func(t []string) string {
+		bits := t[0] == "1"
+		var src string
+		switch t[1] {
+		case "i":
+			src = "leaf l { type " + typeBody(bits, t[2]) + " }"
+		case "t":
+			src = "typedef ot { type " + typeBody(bits, t[2]) + " } leaf l { type ot; }"
+		default:
+			panic("bad form")
+		}
+		ms := yang.NewModules()
+		if err := ms.Parse("module m { yang-version \"1.1\"; namespace \"urn:m\"; prefix m; feature ft; "+src+" }", "m.yang"); err != nil {
+			return "parse-error " + strings.ReplaceAll(err.Error(), "\n", " ")
+		}
+		dev := "module d { yang-version \"1.1\"; namespace \"urn:d\"; prefix d; import m { prefix m; } feature ft; " +
+			"deviation /m:l { deviate replace { type " + typeBody(bits, t[3]) + " } } }"
+		if err := ms.Parse(dev, "d.yang"); err != nil {
+			return "parse-error " + strings.ReplaceAll(err.Error(), "\n", " ")
+		}
+		if errs := ms.Process(); len(errs) > 0 {
+			return "err"
+		}
+		l := yang.ToEntry(ms.Modules["m"]).Dir["l"]
+		if l == nil || l.Type == nil {
+			return "no-leaf"
+		}
+		et := l.Type.Enum
+		if bits {
+			et = l.Type.Bit
+		}
+		if et == nil {
+			return "no-table"
+		}
+		return "ok " + enumViews(et)
+	}
+}
+
 // typeBody writes "enumeration { members }" / "bits { members }" from name:valuehex|~:pre:post,... (see enummod).
 func typeBody(bits bool, members string) string {
 	var b strings.Builder
